@@ -57,7 +57,10 @@ def build_overlay(m, repo):
         if txt.count(old) != cnt:
             raise RuntimeError(f"mutant {m['prop']}/{m['name']}: anchor text occurs {txt.count(old)}x in {file}, expected {cnt}")
         txt = txt.replace(old, new)
-        compile(txt, file, 'exec')          # the variant must still compile
+        import warnings
+        with warnings.catch_warnings():
+            warnings.simplefilter("ignore")
+            compile(txt, file, "exec")          # the variant must still compile
         overlay[file] = txt
     return overlay
 
